@@ -1,3 +1,4 @@
+import Mqtt5V.Proofs.TraceDup
 import Mqtt5V.Proofs.PubSend
 import Mqtt5V.Props.C17
 /-! # C03 — QoS 2 sender: retransmissions are faithful (packet core)
@@ -87,5 +88,58 @@ example : trace true [.sent .tryAgain, .sent .ok, .reply .tryAgain, .sent .ok, .
 
 
 end PubSendOp
+
+/-! ## the composed client model (`Model/Trace.lean`)
+One labelled transition system for the whole outbound path of the client above the stream (API call → sender → reply map → completion),
+over the events an observer of the real client sees.  The tie: `lib/trace_check.py` replays every H-client transcript of the real
+`mqtt_client` through the compiled model (`mdrv trace`); a transcript the model refuses is a broken correspondence.  The theorems below
+hold for EVERY event list the model accepts, of any length. -/
+section ComposedModel
+open Mqtt5V.Model
+
+/-- **C03 end to end (1)**: once the PUBREL of a QoS 2 exchange has been written — the client consumed the successful PUBREC — the
+PUBLISH of that exchange is never written again, in no accepted history, whatever reconnects and resends lie in between -/
+theorem composed_no_publish_after_pubrel (pre post : List Trace.Ev) (op q p : Nat) (dup : Bool) (body : Nat)
+    (hacc : Trace.accepts (pre ++ Trace.Ev.pk (.publish op q p dup body) :: post) = true)
+    (c : Trace.Chain [Trace.isReq op p, Trace.isRel p] pre) : False :=
+  Mqtt5V.Proofs.Trace.no_publish_after_pubrel hacc c
+
+/-- **C03 end to end (2)**: every transmission of an operation's request carries the same bytes apart from the DUP bit … -/
+theorem composed_retransmission_identical (tr : List Trace.Ev) (hacc : Trace.accepts tr = true) (op b1 b2 : Nat)
+    (u1 : Trace.usesBody tr op b1) (u2 : Trace.usesBody tr op b2) : b1 = b2 :=
+  Mqtt5V.Proofs.Trace.retransmission_identical hacc u1 u2
+
+/-- … and the same packet identifier -/
+theorem composed_retransmission_same_identifier (tr : List Trace.Ev) (hacc : Trace.accepts tr = true) (op p1 p2 : Nat)
+    (u1 : Trace.usesPid tr op p1) (u2 : Trace.usesPid tr op p2) : p1 = p2 := by
+  obtain ⟨s, hr⟩ := (Mqtt5V.Proofs.Trace.accepts_iff _).1 hacc
+  exact Mqtt5V.Proofs.Trace.pid_stable hr u1 u2
+
+/-- **C03 end to end (3)**: the first transmission of a PUBLISH has DUP = 0 … -/
+theorem composed_first_transmission_dup_zero (pre post : List Trace.Ev) (op q p : Nat) (dup : Bool) (body : Nat)
+    (hacc : Trace.accepts (pre ++ Trace.Ev.pk (.publish op q p dup body) :: post) = true)
+    (hfirst : ∀ p', ¬ Trace.usesPid pre op p') : dup = false :=
+  Mqtt5V.Proofs.Trace.first_transmission_dup_zero hacc hfirst
+
+/-- … and DUP = 1 whenever a write that contained an earlier transmission of it had completed successfully
+(`writtenOk`: the PUBLISH event, then — with no other write event in between — the successful end of that write) -/
+theorem composed_dup_after_successful_write (pre post : List Trace.Ev) (op q p : Nat) (dup : Bool) (body : Nat)
+    (hacc : Trace.accepts (pre ++ Trace.Ev.pk (.publish op q p dup body) :: post) = true)
+    (hw : Trace.writtenOk pre op) : dup = true :=
+  Mqtt5V.Proofs.Trace.dup_after_successful_write hacc hw
+
+/-- non-vacuity: a QoS 2 publish re-sent with DUP after a reconnect, PUBREL re-sent after another one, is accepted … -/
+example : Trace.accepts [.init 1 .pub2 1, .connUp none, .wr, .pk (.publish 1 2 7 false 3), .wrOk, .connUp none, .wr,
+    .pk (.publish 1 2 7 true 3), .wrOk, .rx ⟨.pubrec, 7, [0], 0, true⟩, .wr, .pk (.pubrel 7), .wrFail, .connUp none, .wr, .pk (.pubrel 7), .wrOk,
+    .rx ⟨.pubcomp, 7, [0], 0, true⟩, .doneOk 1 [0] 0] = true := by decide
+/-- … the same with DUP = 0 on the retransmission, a PUBLISH after the PUBREL, or changed bytes, is not -/
+example : Trace.accepts [.init 1 .pub2 1, .connUp none, .wr, .pk (.publish 1 2 7 false 3), .wrOk, .connUp none, .wr,
+    .pk (.publish 1 2 7 false 3)] = false := by decide
+example : Trace.accepts [.init 1 .pub2 1, .connUp none, .wr, .pk (.publish 1 2 7 false 3), .wrOk, .rx ⟨.pubrec, 7, [0], 0, true⟩, .wr,
+    .pk (.pubrel 7), .wrFail, .connUp none, .wr, .pk (.publish 1 2 7 true 3)] = false := by decide
+example : Trace.accepts [.init 1 .pub1 1, .connUp none, .wr, .pk (.publish 1 1 7 false 3), .wrFail, .connUp none, .wr,
+    .pk (.publish 1 1 7 false 4)] = false := by decide
+
+end ComposedModel
 
 end Mqtt5V.Props.C03
